@@ -191,7 +191,10 @@ def add_obs_obligation(res: Result, rule: str, vfg: VFG, tree: Tree):
             ok = obj is mk("attr", ts, "extras") and k is key and v is mk("attr", ts, "observation")
         elif ex.kind == "dict":
             d = dict(zip(ex.args[0], ex.args[1]))
-            ok = d.get(key) is mk("attr", ts, "observation")
+            keeps = any(k.kind == "star" and k.args[0] is mk("attr", ts, "extras") for k in ex.args[0])
+            ok = d.get(key) is mk("attr", ts, "observation") and keeps
+            if not keeps:
+                why += " -- the inner environment's extras are dropped"
     res.add(rule + ".R3", addf.loc(), "wrappers.add_obs_to_extras",
             "stores timestep.observation under NEXT_OBS_KEY_IN_EXTRAS and changes only extras", ok, why)
 
